@@ -1,6 +1,6 @@
 (* C16 — property theorems only (proved in C16/Proofs*.v), instantiated with the constants
    re-extracted from the headers on this run (gen/Params_C16.v). *)
-From MV Require Import C16.Model C16.ProofsSeq C16.ProofsSync gen.Params_C16.
+From MV Require Import C16.Model C16.ProofsSeq C16.ProofsSync C16.ProofsAsync gen.Params_C16.
 Local Open Scope Z_scope.
 
 (* side condition on the extracted constant: the buffer has room for one byte and the NUL *)
@@ -94,3 +94,66 @@ Proof.
   rewrite (Hf t) by (right; exact Hd). reflexivity.
 Qed.
 Print Assumptions log_per_thread_order.
+
+(* Async logger (producers 1..n, writer thread 0, the channel as a bounded FIFO with FULL), every
+   schedule, repaired or not: what the channel accepted is what the writer thread took plus what
+   is still queued (FIFO); handler i's stream holds, whole and in queue order, exactly the lines
+   the sync logger's handler test selects from the messages taken so far (the one in progress
+   excluded until its line starts); each producer's accepted calls are in call order. *)
+Theorem async_equals_sync : forall fixed A sched i,
+  let s := exec asys (astep fixed A) (ainit A) sched in
+  a_accepted s = a_consumed s ++ msgs_of (a_queue s) /\
+  lines_of (a_out s i) = filter (macc A i) (done_part s i) /\
+  (cmid (a_cons s) i = false -> whole (a_out s i)) /\
+  (forall t, incr_from 0 (ks_of t (a_accepted s))).
+Proof.
+  intros fixed A sched i s. destruct (async_invariant fixed A sched) as [F C O W M].
+  split; [exact F|]. split; [apply O|]. split; [apply W|].
+  intros t. apply (async_accept_order fixed A sched t).
+Qed.
+Print Assumptions async_equals_sync.
+
+(* FULL STATEMENT (async_destroy_drains): when destroy has returned, a_consumed s = a_accepted s
+   and every accepted message is written.  Proved part: when destroy has returned the writer
+   thread has left through the sentinel, no line is in progress, and every message it took is on
+   every accepting handler's stream, whole, in queue order; accepted = taken ++ still queued.
+   GAP: "no message is queued behind the sentinel" (msgs_of (a_queue s) = []), which needs the
+   counting invariant a_remaining = number of producers still logging. *)
+Theorem async_destroy_drains_partial : forall fixed A sched,
+  let s := exec asys (astep fixed A) (ainit A) sched in
+  a_destroyed s = true ->
+  cexited (a_cons s) = true /\
+  a_accepted s = a_consumed s ++ msgs_of (a_queue s) /\
+  forall i, whole (a_out s i) /\ lines_of (a_out s i) = filter (macc A i) (a_consumed s).
+Proof. exact destroyed_all_written. Qed.
+Print Assumptions async_destroy_drains_partial.
+
+(* FULL STATEMENT (async_no_leak_on_full): in every final state a_live s = 0.  Proved part
+   (repaired code): a producer whose message the full queue refused releases both allocations
+   and records the drop before its next call, touching neither the queue nor the accepted list;
+   plus a complete concrete history with two refusals ending with nothing outstanding and
+   destroy returned.  GAP: the global accounting invariant
+   live = 2 + 2 * queued + held by producers + held by the writer thread (a sum over threads). *)
+Theorem async_no_leak_on_full_partial :
+  (forall A s t k, p_pc (a_thr s t) = PUnlock true -> p_k (a_thr s t) = k ->
+     exists s1 l1 s2 l2 s3 l3,
+       pstep true A s t = Some (s1, l1) /\ pstep true A s1 t = Some (s2, l2) /\ pstep true A s2 t = Some (s3, l3) /\
+       a_live s3 = pred (pred (a_live s)) /\ a_dropped s3 = a_dropped s ++ [(t, k)] /\
+       a_thr s3 t = p_next A k /\ a_queue s3 = a_queue s /\ a_accepted s3 = a_accepted s) /\
+  (let s := exec asys (astep true ex_ascen) (ainit ex_ascen) ex_sched in
+   a_dropped s = [(1, 2); (1, 3)]%nat /\ a_live s = 0%nat /\ a_destroyed s = true /\
+   a_cons s = CEnd /\ p_pc (a_thr s 1%nat) = PEnd /\ a_consumed s = a_accepted s /\
+   lines_of (a_out s 0%nat) = [(1, 0); (1, 1)]%nat).
+Proof. split; [exact refused_message_released|exact repaired_witness]. Qed.
+Print Assumptions async_no_leak_on_full_partial.
+
+(* The code as first found: a history (one producer bursting past the queue capacity while the
+   writer thread does not run, then destroy) after which two messages are leaked (6 allocations
+   outstanding), the NULL sentinel was refused, destroy has not returned and no thread can move. *)
+Theorem async_leak_and_hang_before_repair :
+  let s := exec asys (astep false ex_ascen) (ainit ex_ascen) ex_sched in
+  a_dropped s = [(1, 2); (1, 3)]%nat /\ a_live s = 6%nat /\ a_destroyed s = false /\
+  a_cons s = CBlocked /\ p_pc (a_thr s 1%nat) = PJoinBlocked /\
+  (forall t ch, astep false ex_ascen s t ch = None).
+Proof. exact unrepaired_witness. Qed.
+Print Assumptions async_leak_and_hang_before_repair.
